@@ -554,13 +554,13 @@ func genMasks(rng *rand.Rand) MaskScenario {
 
 func masksMonitor(f lib.Flags, res *lib.Result, rng *rand.Rand) {
 	mon := res.Monitor("converges-read-masks",
-		"single writer, 2-3 concurrent subscribers of one Value / Collection of two-field messages with DIFFERENT read masks (none, each field, both), backpressure on/off, subscribing before or between writes; each subscriber's folded view at quiescence vs the projection of Get/List under its OWN mask (projection computed independently); all ordered pairs of distinct masks x {Value, Collection} x {backpressure, lossy} + random; deterministic, so any difference is a violation")
+		"single writer, 2-3 concurrent subscribers of one Value / Collection of two-field messages with DIFFERENT read masks (none, each field, both), backpressure on/off, subscribing before or between writes; each subscriber's folded view at quiescence vs the projection of Get/List under its OWN mask (projection computed independently); all ordered pairs of distinct masks x {Value, Collection} x {backpressure, lossy} + random; on Collections also WithInclude with a function of a closed family reading the STORED item (level even, target even, level >= 5, id even and target < 5) combined with every mask (in particular masks hiding the field the function reads): scripted sequences moving items into / inside / out of the included set by ADD, UPDATE and REMOVE for every (mask, function) pair + random; the view must be the masked image of the items the function accepts AND equal what List returns with the same mask and function; deterministic, so any difference is a violation")
 	all := append(maskWitnesses(), includeMaskWitnesses()...)
 	for i := 0; i < f.N(200, 3000); i++ {
 		all = append(all, genMasks(rng))
 	}
 	tie := res.Tie("masks-model", "K1",
-		"the read-mask scenarios as schedules of the model (single writer; every delivery immediately received; subscriber i carries its mask as a projection): store and every subscriber's masked view at quiescence vs run(model); non-trivial = subscribers with different masks")
+		"the read-mask scenarios as schedules of the model (single writer; every delivery immediately received; subscriber i carries its mask as a projection and its include function; the model's view is the fold of what its forwarder emits: include on the stored values, then the mask): store and every subscriber's view at quiescence vs run(model); non-trivial = subscribers with different masks")
 	var lines, codes []string
 	var inputs []any
 	var nontriv []bool
